@@ -114,8 +114,13 @@ func c19History(c *ctx, start typeSpec, ops []c19Op, how string) {
 				for k := range srcRels {
 					srcVals[k] = src.Get(k)
 				}
+				argBefore := oStruct(src)
 				col.Add(src)
 				lastSrc = src
+				// Add reads its argument: the resource handed in is what it was
+				if after := oStruct(src); after != argBefore && key == "" {
+					key, detail = "add-changes-argument", fmt.Sprintf("step %d %s: the resource that was added is now %s, was %s", i, o, after, argBefore)
+				}
 				// Add extends the type with the fields it lacks and stores every value that
 				// fits the (possibly older) definition the collection has for that name
 				if key == "" {
@@ -221,6 +226,26 @@ func c19History(c *ctx, start typeSpec, ops []c19Op, how string) {
 				got := !(r == nil || reflect.ValueOf(r).IsNil())
 				if got != inList || (got && r.Get("id") != id) {
 					key, detail = "resource-lookup-differs-from-list", fmt.Sprintf("step %d %s: Resource(%q) found=%v, the list holds it=%v", i, o, id, got, inList)
+				}
+			}
+			// Resource(id) and At(i) hand out the stored element itself: a Set through one shows through the other
+			if key == "" && col.Len() > 0 {
+				last := col.At(col.Len() - 1)
+				if lid, _ := last.Get("id").(string); lid != "" {
+					first := -1
+					for j := range ref {
+						if ref[j].id == lid {
+							first = j
+							break
+						}
+					}
+					if via := col.Resource(lid, nil); first >= 0 && via != nil && !reflect.ValueOf(via).IsNil() {
+						via.Set("id", lid+"-renamed")
+						if got := col.At(first).Get("id"); got != lid+"-renamed" {
+							key, detail = "resource-lookup-differs-from-list", fmt.Sprintf("step %d %s: an ID set through Resource(%q) does not show through At(%d) (%q)", i, o, lid, first, got)
+						}
+						col.At(first).Set("id", lid)
+					}
 				}
 			}
 			if key != "" {
